@@ -22,6 +22,20 @@ TNext == /\ l <= Len(Trace) /\ l' = l + 1
             THEN /\ (IF has /\ E.out = lastMsg /\ E.now - lastTime < interval
                      THEN PrintT(<<"VIOL", l, {"C20:processor-repeats-line-within-interval"}>>) ELSE TRUE)
                  /\ lastMsg' = E.out /\ lastTime' = E.now /\ has' = TRUE /\ UNCHANGED interval
+            ELSE IF E.ev = "pcmp"     \* one processor script run twice: `attempts` = everything the processor tried to log (its
+                                      \* limiter replaced by one that suppresses nothing), `out` = what the unmodified processor
+                                      \* printed.  Both runs take far less than the interval, so the rule of C20 reduces to
+                                      \* "print iff different from the last line printed": out must be attempts without
+                                      \* immediate repetitions.
+            THEN /\ UNCHANGED <<interval, lastMsg, lastTime, has>>
+                 /\ LET RECURSIVE Dedup(_, _)
+                        Dedup(sq, last) == IF sq = <<>> THEN <<>>
+                                           ELSE IF Head(sq) = last THEN Dedup(Tail(sq), last)
+                                           ELSE <<Head(sq)>> \o Dedup(Tail(sq), Head(sq))
+                        want == Dedup(E.attempts, "\n(none)")
+                    IN IF want = E.out THEN TRUE
+                       ELSE PrintT(<<"VIOL", l, {IF Len(E.out) < Len(want) THEN "C20:processor-loses-distinct-messages"
+                                                 ELSE "C20:processor-output-differs-from-limiter-rule"}>>)
             ELSE LET should == ~(has /\ E.msg = lastMsg /\ E.now - lastTime < interval)
                      did    == E.out # ""
                      v == (IF should /\ ~did THEN {"C20:message-lost"} ELSE {})
